@@ -31,9 +31,9 @@ SPECS = [
          fields={"data": DATA}, params={"time": "Int"}, ret="Val", calls={"self._unpack": "id"}, props=["C11"]),
     dict(lean="PreviousTime__interpolate", path="adapters/time.py", qual="PreviousTime._interpolate", group="Time",
          fields={"data": DATA}, params={"time": "Int"}, ret="Val", calls={"self._unpack": "id"}, props=["C11"]),
-    dict(lean="interpolate", path="adapters/time.py", qual="interpolate", group="Time",
+    dict(lean="interpolate", path="adapters/time.py", qual="interpolate", group="TimeBase",
          params={"old_value": "Rat", "new_value": "Rat", "dt": "Rat"}, ret="Rat", props=["C11", "C12"]),
-    dict(lean="interpolate_step", path="adapters/time.py", qual="interpolate_step", group="Time",
+    dict(lean="interpolate_step", path="adapters/time.py", qual="interpolate_step", group="TimeBase",
          params={"old_value": "Val", "new_value": "Val", "dt": "Rat", "step": "Rat"}, ret="Val", props=["C11"]),
     dict(lean="LinearTime__interpolate", path="adapters/time.py", qual="LinearTime._interpolate", group="Time",
          fields={"data": RDATA}, params={"time": "Int"}, ret="Rat",
@@ -44,7 +44,7 @@ SPECS = [
          calls={"self._unpack": "id",
                 "interpolate_step": {"lean": "interpolate_step", "args": [0, 1, 2, 3], "ret": "Val"}}, props=["C11"]),
     dict(lean="TimeCachingAdapter__clear_cached_data", path="adapters/time.py",
-         qual="TimeCachingAdapter._clear_cached_data", group="Time",
+         qual="TimeCachingAdapter._clear_cached_data", group="TimeBase",
          fields={"data": DATA}, params={"time": "Int"}, ret="Unit",
          assume_false=["isinstance(d[1], str)"], ignore_fields=["_total_mem"], locals={"d": ENTRY},
          fuel={"len(self.data) > 1 and self.data[1][0] <= time": "len(self.data)"}, props=["C11", "C12"]),
@@ -150,7 +150,7 @@ def _get_data_variant(kind, interp, data, val, extra_fields=None, extra_args=Non
 
 SPECS += [
     # ---- adapters/time.py : check_time and the whole `_get_data` of the four interpolation adapters (C11) ---------
-    dict(lean="check_time", path="adapters/time.py", qual="check_time", group="Time",
+    dict(lean="check_time", path="adapters/time.py", qual="check_time", group="TimeBase",
          params={"time": "Int", "time_range": RANGE}, ignore_params=["logger"], ret="Unit",
          assume_false=["not isinstance(time, datetime)"], props=["C11", "C12"]),
     _get_data_variant("next", "NextTime__interpolate", DATA, "Val"),
